@@ -66,7 +66,7 @@ package reader
 // C01: bytes fetched from the blob count as read only after their chunk was verified (directly in the caller's buffer,
 // or in the temporary buffer they are copied from)
 //@   assert[C01] before "nr += n"#2 : sf.gr.verify ==> okDigest == chunkDigestStr && okData == ref(ip)
-//@   assert[C01] before "n := copy(p[nr:], ip[lowerDiscard:chunkSize-upperDiscard])" : sf.gr.verify ==> okDigest == chunkDigestStr && okData == ref(ip)
+//@   assert[C01] before "copy(p[nr:], ip[lowerDiscard:chunkSize-upperDiscard])" : sf.gr.verify ==> okDigest == chunkDigestStr && okData == ref(ip)
 
 // ---- C15 ----
 //@ func (vr *VerifiableReader) Metadata
